@@ -352,7 +352,7 @@ def c20_tree(prop, key, index, tier):
             requirers = [j for j in parent.jobs if a in j.required]
             saved.append((a, parent, set(a.required), requirers))
         for a, parent, reqs, requirers in saved:
-            parent.jobs.discard(a)
+            parent.remove(a)
             for j in requirers:
                 j.required.discard(a)
             a.required.clear()
